@@ -261,6 +261,15 @@ impl Property for C16 {
             upgrade_and_migrate(&env, &gw.id).map_err(|e| format!("setup: {}", e))?;
             cx.label("gateway_upgraded_and_migrated_between_approval_and_delivery");
         }
+        // the gateway's owner has upgraded it and not yet completed the migration: whether deliveries are served in
+        // that window is not decided by the statement, but a served delivery must still consume its approval
+        let window_open = case.seed % 7 == 6;
+        if window_open {
+            env.mock_all_auths();
+            gw.client.upgrade(&BytesN::from_array(&env, &empty_wasm_hash()));
+            env.set_auths(&[]);
+            cx.label("gateway_migration_window_open_during_delivery");
+        }
         if case.days_before > 0 {
             advance_ledgers(&env, DAY * case.days_before as u32);
             cx.label("days_pass_between_approval_and_delivery");
@@ -312,8 +321,11 @@ impl Property for C16 {
         let ev0 = events_len(&env);
         let count0 = mini.count();
         let ok = deliver();
-        if matching {
-            cx.count("must_succeed");
+        if matching && window_open && !ok {
+            cx.count("either");
+            ensure_p!(events_len(&env) == ev0 && snapshot(&env) == snap0, "a refused delivery had effects");
+        } else if matching {
+            cx.count(if window_open { "either" } else { "must_succeed" });
             ensure_p!(ok, "delivery of an approved message to the app failed");
             ensure_p!(app_events(ev0) >= 1, "the app showed no effect for an approved delivery");
             ensure_p!(executed(), "gateway does not report the message executed");
